@@ -34,6 +34,7 @@ func runC06(c *Ctx) {
 	r.Rule("C06.R3", "every path of addTransceiverSDP / addDataMediaSection to the emission of the accepted section passes exactly one setup attribute (from the role parameter), exactly one mid attribute (from the parameter populateSDP binds to section.id), one WithICECredentials(ufrag, pwd) and exactly one direction attribute, and one fingerprint loop over the fingerprint parameter; populateSDP hands the fingerprints to the section builders iff mediaDescriptionFingerprint and emits them at session level iff not", 14)
 	r.Rule("C06.R4", "fresh mids are unique: same scan rule as C09.R5 (every existing mid raises greaterMid before a fresh one is handed out)", 2)
 	r.Rule("C06.R6", "typestate of new transceivers: every `v := &RTPTransceiver{...}` passes v.setDirection(d) on every path before v is used for anything but its own setters, and no setDirection is given the constant zero direction (a transceiver without a stored direction renders a=unknown, i.e. no direction attribute)", 2)
+	r.Rule("C06.R7", "same rule as C12.R1's offer part: outside Plan-B both generator calls of CreateOffer are dominated by the loop that gives every transceiver without a mid a fresh one (a section rendered from a transceiver without a mid has the empty mid, shared by all such sections)", 2)
 	r.Rule("C06.R5", "same rule as C09.R6: a len-based data-section mid is computed after all other sections were appended", 1)
 	r.NotCovered = append(r.NotCovered,
 		"uniqueness of mids over arbitrary histories beyond provenance (e.g. a remote peer reusing a mid)",
@@ -61,6 +62,7 @@ func c06Rules(c *Ctx) {
 	c06TransceiverReturns(env, "C06.R2")
 	c06SectionAttrs(env, "C06.R3")
 	c06Fingerprints(env, "C06.R3")
+	c12OfferMids(env, "C06.R7")
 }
 
 // ---------------------------------------------------------------------------
